@@ -2,6 +2,7 @@
 use crate::common::{run_check, CheckSpec, Config};
 use crate::e2_dag::DagEngine;
 use crate::e1::BuildEngine;
+use crate::e4_state::StateEngine;
 
 pub fn check(prop: &str, tier: &str) -> i32 {
   match prop {
@@ -85,6 +86,18 @@ pub fn check(prop: &str, tier: &str) -> i32 {
       prop: "C20", rule: "class W never aborts; class V aborts judged", assumptions: vec![],
       configs: vec![Config { name: "v-td", quick: 80_000, thorough: 2_500_000 }, Config { name: "v-bu", quick: 40_000, thorough: 1_500_000 }, Config { name: "td", quick: 40_000, thorough: 1_000_000 }, Config { name: "bu-mixed", quick: 40_000, thorough: 1_000_000 }, Config { name: "bu-big", quick: 20_000, thorough: 500_000 }, Config { name: "v-bu-big", quick: 60_000, thorough: 1_500_000 }, Config { name: "v-td-crash", quick: 40_000, thorough: 1_000_000 }],
     }, tier),
+    "C09" => run_check(&BuildEngine, &CheckSpec {
+      prop: "C09", rule: "checker mixes", assumptions: vec![],
+      configs: vec![Config { name: "td", quick: 60_000, thorough: 2_000_000 }, Config { name: "bu-allroots", quick: 50_000, thorough: 1_500_000 }, Config { name: "td-big", quick: 30_000, thorough: 1_000_000 }, Config { name: "m-td", quick: 30_000, thorough: 1_000_000 }, Config { name: "bu-big", quick: 30_000, thorough: 1_000_000 }],
+    }, tier),
+    "C15" => run_check(&BuildEngine, &CheckSpec {
+      prop: "C15", rule: "identity", assumptions: vec![],
+      configs: vec![Config { name: "id-td", quick: 80_000, thorough: 2_500_000 }, Config { name: "id-bu", quick: 60_000, thorough: 2_000_000 }, Config { name: "td", quick: 30_000, thorough: 1_000_000 }],
+    }, tier),
+    "C14" => run_check(&StateEngine, &CheckSpec {
+      prop: "C14", rule: "state histories", assumptions: vec![],
+      configs: vec![Config { name: "mix", quick: 300_000, thorough: 10_000_000 }],
+    }, tier),
     _ => { eprintln!("no check for property {prop}"); 2 }
   }
 }
@@ -100,6 +113,9 @@ pub fn configs_of(prop: &str) -> Vec<&'static str> {
     "C03" => vec!["bu-pure", "bu-allroots", "bu-big"],
     "C04" => vec!["bu-big", "bu-pure", "bu-allroots", "bu-big-allroots"],
     "C10" | "C11" => vec!["short", "long"],
+    "C09" => vec!["td", "bu-allroots", "td-big", "m-td", "bu-big"],
+    "C15" => vec!["id-td", "id-bu", "td"],
+    "C14" => vec!["mix"],
     "C17" => vec!["td", "bu-pure", "td-checkerr", "bu-checkerr", "bu-big", "x-any-td"],
     "C20" => vec!["v-td", "v-bu", "td", "bu-mixed", "bu-big", "v-bu-big", "v-td-crash"],
     "C08" => vec!["td", "bu-mixed", "td-crash", "bu-crash", "m-td", "m-bu"],
